@@ -118,3 +118,163 @@ Proof.
   destruct t; [apply gen_guard_qst_sim|apply gen_guard_povmt_sim|apply gen_guard_qpt_sim|apply gen_guard_qmpt_sim].
 Qed.
 Print Assumptions gen_guards_accept_iff_shape.
+
+(* ------------------------------------------------------------------ Experiment._validate_schedules (loop, try/except) *)
+Lemma gen_items_loop : forall self_ objdict items j,
+  x_for items (fun item => x_of_fres (gen_validate_schedule_item self_ objdict item)) =
+  match validate_items (effective_cfg self_ objdict) j items with inl _ => XPass | inr (_, e) => XRaise (exc_name e) end.
+Proof.
+  intros self_ objdict items. induction items as [|v items IH]; intros j; [reflexivity|].
+  cbn [x_for validate_items]. pose proof (gen_validate_schedule_item_sim self_ objdict v) as Hs.
+  destruct (validate_item (effective_cfg self_ objdict) v) as [t|e];
+    destruct (gen_validate_schedule_item self_ objdict v); cbn in Hs; try contradiction.
+  - cbn [x_of_fres x_seq]. rewrite (IH (S j)). destruct (validate_items _ (S j) items) as [l|[j' e']]; reflexivity.
+  - subst. reflexivity.
+Qed.
+(* for every experiment, every objdict and every list of schedules (sequences of arbitrary values or non-iterable): the
+   regenerated procedure completes / raises exactly as the model says, with the same exception class *)
+Theorem gen_validate_schedules_eq : forall self_ objdict schedules,
+  gen_validate_schedules self_ objdict schedules = xres_of_vres (validate_schedules (effective_cfg self_ objdict) schedules).
+Proof.
+  intros self_ objdict ss. unfold gen_validate_schedules, validate_schedules. generalize 0%nat.
+  induction ss as [|s ss IH]; intros i; [reflexivity|].
+  cbn [x_for validate_from]. destruct s as [items|]; [|reflexivity].
+  cbn [x_for_sched]. rewrite (gen_items_loop self_ objdict items 0).
+  destruct (validate_items (effective_cfg self_ objdict) 0 items) as [t|[j e]] eqn:V.
+  - cbn [x_try x_seq x_call_order]. rewrite (validate_items_parse _ _ _ _ V), gen_validate_schedule_order_eq.
+    destruct (validate_order t) as [[]|]; try reflexivity. cbn [fres_of_order x_of_fres x_try x_seq]. apply IH.
+  - destruct e; reflexivity.
+Qed.
+Print Assumptions gen_validate_schedules_eq.
+(* THE PROPERTY's first sentence, transported to the regenerated procedure *)
+Theorem gen_validate_schedules_property : forall self_ schedules,
+  (Forall (well_formed self_) schedules /\ gen_validate_schedules self_ None schedules = XPass) \/
+  (~ Forall (well_formed self_) schedules /\
+   (gen_validate_schedules self_ None schedules = XRaise "QuaraScheduleItemError" \/
+    gen_validate_schedules self_ None schedules = XRaise "QuaraScheduleOrderError")).
+Proof.
+  intros c ss. rewrite gen_validate_schedules_eq. cbn [effective_cfg].
+  destruct (accepted_or_item_or_order_error c ss) as [[W E]|[W E]].
+  - left. split; [exact W|]. now rewrite E.
+  - right. split; [exact W|]. destruct (validate_schedules c ss); cbn in E |- *; destruct E as [E|E]; try contradiction; auto.
+Qed.
+Print Assumptions gen_validate_schedules_property.
+
+(* ------------------------------------------------------------------ Experiment.__init__ and the five setters *)
+Theorem gen_experiment_init_eq : forall schedules states povms gates mprocesses,
+  let c := mkcfg (or_nil states) (or_nil povms) (or_nil gates) (or_nil mprocesses) in
+  snd (gen_experiment_init schedules states povms gates mprocesses) = xres_of_vres (validate_schedules c schedules) /\
+  (validate_schedules c schedules = VOk ->
+   construct c schedules = inl (fst (gen_experiment_init schedules states povms gates mprocesses))).
+Proof.
+  intros ss st pv gt mp c. unfold gen_experiment_init. cbn [set_objs with_objs e_cfg e_scheds c_states c_povms c_gates c_mprocesses].
+  rewrite gen_validate_schedules_eq. cbn [effective_cfg]. fold c. unfold construct.
+  destruct (validate_schedules c ss); cbn; split; try reflexivity; discriminate.
+Qed.
+Print Assumptions gen_experiment_init_eq.
+
+Lemma gen_list_setter e k v body :
+  body = s_then (x_try (gen_validate_schedules (e_cfg e) (Some (with_objs (e_cfg e) k v)) (e_scheds e))
+                       ["QuaraScheduleItemError"%string] (XRaise "QuaraScheduleItemError")) e (set_objs e k v, XPass) ->
+  body = (fst (apply_set e (SetObjs k v)), xres_of_vres (snd (apply_set e (SetObjs k v)))).
+Proof.
+  intros ->. rewrite gen_validate_schedules_eq. cbn [effective_cfg apply_set].
+  destruct (validate_schedules (with_objs (e_cfg e) k v) (e_scheds e)); reflexivity.
+Qed.
+(* every setter: same new state (unchanged on rejection) and same exception class as the model's apply_set *)
+Theorem gen_set_states_eq : forall e v,
+  gen_set_states e v = (fst (apply_set e (SetObjs KState v)), xres_of_vres (snd (apply_set e (SetObjs KState v)))).
+Proof. intros. now apply gen_list_setter. Qed.
+Print Assumptions gen_set_states_eq.
+Theorem gen_set_povms_eq : forall e v,
+  gen_set_povms e v = (fst (apply_set e (SetObjs KPovm v)), xres_of_vres (snd (apply_set e (SetObjs KPovm v)))).
+Proof. intros. now apply gen_list_setter. Qed.
+Print Assumptions gen_set_povms_eq.
+Theorem gen_set_gates_eq : forall e v,
+  gen_set_gates e v = (fst (apply_set e (SetObjs KGate v)), xres_of_vres (snd (apply_set e (SetObjs KGate v)))).
+Proof. intros. now apply gen_list_setter. Qed.
+Print Assumptions gen_set_gates_eq.
+Theorem gen_set_mprocesses_eq : forall e v,
+  gen_set_mprocesses e v = (fst (apply_set e (SetObjs KMprocess v)), xres_of_vres (snd (apply_set e (SetObjs KMprocess v)))).
+Proof. intros. now apply gen_list_setter. Qed.
+Print Assumptions gen_set_mprocesses_eq.
+Theorem gen_set_schedules_eq : forall e ss,
+  gen_set_schedules e ss = (fst (apply_set e (SetSchedules ss)), xres_of_vres (snd (apply_set e (SetSchedules ss)))).
+Proof.
+  intros e ss. unfold gen_set_schedules. rewrite gen_validate_schedules_eq. cbn [effective_cfg apply_set].
+  destruct (validate_schedules (e_cfg e) ss); reflexivity.
+Qed.
+Print Assumptions gen_set_schedules_eq.
+(* the invariant over every history of assignments, transported: a run of regenerated setters from a valid experiment *)
+Definition gen_apply (e : exp) (op : setop) : exp * xres :=
+  match op with
+  | SetObjs KState v => gen_set_states e v | SetObjs KPovm v => gen_set_povms e v
+  | SetObjs KGate v => gen_set_gates e v | SetObjs KMprocess v => gen_set_mprocesses e v
+  | SetSchedules ss => gen_set_schedules e ss
+  end.
+Theorem gen_setters_preserve_validity : forall ops e, valid_exp e ->
+  valid_exp (fold_left (fun st op => fst (gen_apply st op)) ops e).
+Proof.
+  intros ops e H.
+  assert (E : forall st op, fst (gen_apply st op) = fst (apply_set st op)).
+  { intros st [[] v|ss]; cbn [gen_apply];
+      [rewrite gen_set_states_eq|rewrite gen_set_povms_eq|rewrite gen_set_gates_eq|rewrite gen_set_mprocesses_eq|rewrite gen_set_schedules_eq]; reflexivity. }
+  revert e H. induction ops as [|op ops IH]; intros e H; [exact H|]. cbn [fold_left]. apply IH. rewrite E. now apply apply_set_valid.
+Qed.
+Print Assumptions gen_setters_preserve_validity.
+
+(* ------------------------------------------------------------------ the four tomography constructors: schedule prologue
+   (`if type(schedules) == str: _validate_schedules_str` ; "all" expansion ; Experiment(...) ; class guard loop) *)
+Lemma gen_tomo_body t (gen : list titem -> fres) ns np ss st pv gt mp :
+  (forall s, guard_sim (gen s) (guard_one t s)) ->
+  mkcfg (or_nil st) (or_nil pv) (or_nil gt) (or_nil mp) = class_cfg t ns np ->
+  x_seq (snd (gen_experiment_init ss st pv gt mp)) (x_for ss (fun schedule => x_call_guard gen schedule)) =
+  xres_of_tres (tomo_run t ns np ss).
+Proof.
+  intros G C. destruct (gen_experiment_init_eq ss st pv gt mp) as [E _]. cbv zeta in E. rewrite E, C.
+  unfold tomo_run, tomo_run_with. destruct (validate_schedules (class_cfg t ns np) ss) eqn:V; try reflexivity.
+  cbn [xres_of_vres x_seq]. apply guard_loop_sim; [exact G|now apply experiment_accepts_iff].
+Qed.
+Lemma gen_str_check s :
+  x_of_fres (gen_validate_schedules_str s) = if String.eqb s "all" then XPass else XRaise "ValueError".
+Proof. unfold gen_validate_schedules_str. cbn [existsb]. rewrite orb_false_r. destruct (String.eqb s "all"); reflexivity. Qed.
+Ltac tomo_eq G :=
+  intros ns np [s|ss]; cbn [tomo_construct];
+  [ rewrite gen_str_check; destruct (String.eqb s "all"); [cbn [x_seq]; apply gen_tomo_body; [exact G|reflexivity] | reflexivity]
+  | cbn [x_seq]; apply gen_tomo_body; [exact G|reflexivity] ].
+(* for every number of testers and every schedules argument (a str or a list of arbitrary schedules): the regenerated
+   prologue completes / raises as the model's tomo_construct says, with the same exception class *)
+Theorem gen_tomo_qst_eq : forall ns np a, gen_tomo_qst ns np a = xres_of_tres (tomo_construct Qst ns np a).
+Proof. unfold gen_tomo_qst. tomo_eq gen_guard_qst_sim. Qed.
+Print Assumptions gen_tomo_qst_eq.
+Theorem gen_tomo_povmt_eq : forall ns np a, gen_tomo_povmt ns np a = xres_of_tres (tomo_construct Povmt ns np a).
+Proof. unfold gen_tomo_povmt. tomo_eq gen_guard_povmt_sim. Qed.
+Print Assumptions gen_tomo_povmt_eq.
+Theorem gen_tomo_qpt_eq : forall ns np a, gen_tomo_qpt ns np a = xres_of_tres (tomo_construct Qpt ns np a).
+Proof. unfold gen_tomo_qpt. tomo_eq gen_guard_qpt_sim. Qed.
+Print Assumptions gen_tomo_qpt_eq.
+Theorem gen_tomo_qmpt_eq : forall ns np a, gen_tomo_qmpt ns np a = xres_of_tres (tomo_construct Qmpt ns np a).
+Proof. unfold gen_tomo_qmpt. tomo_eq gen_guard_qmpt_sim. Qed.
+Print Assumptions gen_tomo_qmpt_eq.
+(* the second sentence of THE PROPERTY, transported: each regenerated constructor prologue completes exactly for the schedule
+   lists of the class's own shape (and for "all") *)
+Definition gen_tomo (t : tclass) := match t with Qst => gen_tomo_qst | Povmt => gen_tomo_povmt | Qpt => gen_tomo_qpt | Qmpt => gen_tomo_qmpt end.
+Theorem gen_tomo_accepts_iff_shape : forall t ns np ss,
+  gen_tomo t ns np (AList ss) = XPass <-> Forall (class_shape t ns np) ss.
+Proof.
+  intros t ns np ss. rewrite <- (tomo_accepts_iff_shape t ns np ss).
+  assert (E : gen_tomo t ns np (AList ss) = xres_of_tres (tomo_construct t ns np (AList ss)))
+    by (destruct t; [apply gen_tomo_qst_eq|apply gen_tomo_povmt_eq|apply gen_tomo_qpt_eq|apply gen_tomo_qmpt_eq]).
+  rewrite E. apply xres_of_tres_pass. cbn [tomo_construct]. unfold tomo_run, tomo_run_with. intros v.
+  destruct (validate_schedules (class_cfg t ns np) ss) eqn:V; try (intros [= <-]; discriminate).
+  intros H. exfalso. revert H. apply guard_from_not_exp.
+Qed.
+Print Assumptions gen_tomo_accepts_iff_shape.
+Theorem gen_tomo_all_accepted : forall t ns np, gen_tomo t ns np (AStr "all") = XPass.
+Proof.
+  intros t ns np.
+  assert (E : gen_tomo t ns np (AStr "all") = xres_of_tres (tomo_construct t ns np (AStr "all")))
+    by (destruct t; [apply gen_tomo_qst_eq|apply gen_tomo_povmt_eq|apply gen_tomo_qpt_eq|apply gen_tomo_qmpt_eq]).
+  rewrite E, tomo_all_accepted. reflexivity.
+Qed.
+Print Assumptions gen_tomo_all_accepted.
